@@ -1,6 +1,6 @@
 #!/bin/bash
 # run ALL property checks against each independent benign refactoring (selftest/benign2); print alarms
-ALL="C01 C02 C03 C04 C05 C06 C07 C08 C09 C10 C11 C12 C13 C14 C15 C16 C17 C18"
+ALL="${ALL:-C01 C02 C03 C04 C05 C06 C07 C08 C09 C10 C11 C12 C13 C14 C15 C16 C17 C18}"
 run1() { p=$1; out=$(/verif/bin/mutrun.sh $p $ALL 2>&1); if echo "$out" | grep -qE '^VIOLATION|CHECK-ERROR|PATCH-FAILED|Traceback'; then echo "$(basename $p) ALARM"; echo "$out" | grep -E 'rule=|CHECK-ERROR|PATCH-FAILED|Error' | sed 's/ at src.*\]: /: /' | cut -c1-230 | sort -u | head -${MAXL:-10}; else echo "$(basename $p) silent"; fi; }
 export -f run1; export ALL
 ls ${1:-/verif/selftest/benign2}/*.patch | xargs -P 6 -I{} bash -c 'run1 {}'
